@@ -295,7 +295,7 @@ fn render(m: &Model, st: &Style) -> String {
 
 fn probe_codes(r: &mut Rng, m: &Model, entries: &[Entry], full: bool) -> Vec<Vec<u8>> {
     let mut v: Vec<Vec<u8>> = Vec::new();
-    let mut around = |code: &[u8], v: &mut Vec<Vec<u8>>| {
+    let around = |code: &[u8], v: &mut Vec<Vec<u8>>| {
         let len = code.len();
         let val = be_val(code);
         let maxv = if len >= 8 { u64::MAX } else { (1u64 << (8 * len)) - 1 };
